@@ -92,6 +92,24 @@ func (p propC04) Gen(r *Rng, tier string) *World {
 		best = g.Program()
 	}
 	w.Prog = best
+	if len(g.by[TBool]) > 0 && r.P(0.02) {
+		// a very wide and/or (up to the 127-operand limit): operand stacks far
+		// beyond anything the typed generator builds
+		name := PickS(r, []string{"and", "or", "&", "||"})
+		n := r.Range(60, 120) // flattening with the wrapper below must stay within 127
+		kids := make([]*Node, n)
+		for i := range kids {
+			if r.P(0.9) {
+				kids[i] = Var(g.by[TBool][r.Intn(len(g.by[TBool]))])
+			} else {
+				kids[i] = Lit(VB(r.P(0.5)))
+			}
+		}
+		w.Prog = Op(name, kids...)
+		if r.P(0.5) {
+			w.Prog = Op(PickS(r, []string{"or", "and"}), w.Prog, g.Leaf(TBool))
+		}
+	}
 	w.Cfg = g.C
 	w.Cfg.ViaDirect = r.P(0.2)
 	w.Cfg.DirStyle = r.Intn(6)
